@@ -6,6 +6,11 @@ import (
 	"verif/vkit"
 )
 
+// SchedProbe is the recorded schedule behind live-save:bus-last-offset-ahead.
+func SchedProbe() *SchedCase {
+	return &SchedCase{Tasks: [][]int{{1}, {1}}, Schedule: []int{0, 1, 1, 1}, CrashStep: 4}
+}
+
 // Probes replays the recorded histories behind the known findings of C12.
 func Probes() *vkit.Outcome {
 	o := &vkit.Outcome{}
